@@ -109,11 +109,11 @@ impl ReadBufPool {
 
         // Fill the buffer ring to let the kernel know what buffers are
         // available.
-        let ring_tail = pool.ring_tail();
-        let ring_addr = unsafe { &mut *ring_addr };
+        // NOTE: not creating a reference to the `io_uring_buf_ring` as it only
+        // covers the first buffer and overlaps with the ring tail.
         let bufs = unsafe {
             slice::from_raw_parts_mut(
-                ptr::addr_of_mut!(ring_addr.__bindgen_anon_1.bufs)
+                ptr::addr_of_mut!((*ring_addr).__bindgen_anon_1.bufs)
                     .cast::<MaybeUninit<libc::io_uring_buf>>(),
                 pool_size as usize,
             )
@@ -128,11 +128,14 @@ impl ReadBufPool {
                 resv: 0,
             });
         }
+        // NOTE: the tail overlaps with the first buffer, so only get a
+        // reference to it after we're done writing the buffers.
+        let ring_tail = pool.ring_tail();
         ring_tail.store(pool_size, Ordering::Release);
 
         // NOTE: unpoisioned in ReadBufPool::release before usage and finally in
         // the Drop impl.
-        asan::poison_region(ptr::from_ref(ring_addr).cast(), ring_layout.size());
+        asan::poison_region(ring_addr.cast_const().cast(), ring_layout.size());
         // NOTE: poisoned in the line above as it overlaps with `ring_addr`.
         asan::unpoison(ring_tail);
         // NOTE: unpoisoned in ReadBufPool::init_buffer.
@@ -219,9 +222,14 @@ impl ReadBufPool {
 
     /// Returns the tail of buffer ring.
     fn ring_tail(&self) -> &AtomicU16 {
+        // NOTE: can't create a (read-only) reference to the ring here as we're
+        // going to write to tail using the pointer derived from it.
+        // The tail overlaps with the `resv` field of the first buffer in the
+        // ring (`io_uring_buf_ring` is a union of the two).
         unsafe {
-            let buf = &(*self.ring_addr).__bindgen_anon_1.__bindgen_anon_1;
-            AtomicU16::from_ptr((&raw const buf.tail).cast_mut())
+            let first_buf = ptr::addr_of_mut!((*self.ring_addr).__bindgen_anon_1.bufs)
+                .cast::<libc::io_uring_buf>();
+            AtomicU16::from_ptr(&raw mut (*first_buf).resv)
         }
     }
 }
